@@ -638,13 +638,54 @@ def moving_case(run, idx, cfgspec, runs, seed):
 
 
 
+def size_sweep_case(run, sizes, runs, seed):
+    """Thin slices of the size axis: for EVERY storage length in `sizes` the background row drawn by the marginal
+    imputer (both strategies) must be uniform - coarse power per size, but no size is left out."""
+    from ixai.storage import BatchStorage
+    from ixai.imputer import MarginalImputer
+    random.seed(seed)
+    np.random.seed(seed)
+    seen = []
+
+    def model(xx):
+        seen.append(xx)
+        return {"output": 0.0}
+    x = {"a": -1.0, "b": -2.0}
+    fails = []
+    ct = CellTests(2 * sum(sizes), eps=EPS / (2 * len(OUTCOME_CFGS) + 64))
+    for m in sizes:
+        st = BatchStorage(store_targets=False)
+        for t in range(m):
+            st.update({"a": float(t), "b": float(t) + 0.5})
+        for strat in ("joint", "product"):
+            imp = MarginalImputer(model, strat, st)
+            del seen[:]
+            imp.impute(["a", "b"] if strat == "joint" else ["a"], x, runs)
+            cnt = collections.Counter(int(xi["a"]) for xi in seen)
+            run.ok(runs, kind="size-sweep")
+            for r in range(m):
+                res = ct.test(cnt.get(r, 0), runs, 1 / m, f"size-sweep storage length {m} ({strat}) row {r}")
+                if res:
+                    fails.append(("row-distribution", res))
+            run.nontriv(("size-sweep", m, strat))
+    run.count("cell-tests", ct.done)
+    run.notes["size-sweep"] = {"sizes": [min(sizes), max(sizes)], "draws_per_size": runs, "min_p": ct.min_p, "mdd": ct.max_mdd}
+    seen_m = set()
+    for mech, msg in fails:
+        key = msg.split(" row ")[0]
+        if key not in seen_m and len(seen_m) < 3:
+            seen_m.add(key)
+            run.violation("imputer:" + mech, msg, {"sizes": sizes, "runs": runs, "seed": seed})
+
+
+
 def main(run):
     run.rule = ("(a) draw level: feature order and source row of every imputed feature decoded from the model inputs (unique "
                 "feature values) over R calls per configuration {IncrementalSage, IncrementalPFI, BatchSage.explain_many, "
                 "explain_many_original} x {joint, product} x storage size m in {2..7, 50, 100, 1000 (bucketed)}; exact binomial "
                 "cells: each of d! orders 1/d!, each row 1/m per chain position / per explained-observation position, row pairs "
                 "across features (product) and across consecutive inner samples 1/m^2; (a2) feature orders at high repetition counts "
-                "(6e4 quick / 6e5 thorough calls per configuration, d in 2..5) through a recording imputer; (a3) MOVING storages (interval, "
+                "(6e4 quick / 6e5 thorough calls per configuration, d in 2..5) through a recording imputer; (a4) a sweep over EVERY storage length 1..70 (and 127..129, 255..257, 1025) with coarse row-uniformity cells; (a3) MOVING storages (interval, "
                 "always-insert geometric, uniform, sequence) updated between explanations: every imputed value must stem from the "
                 "storage content current at that call and its position be uniform; (b) outcome level: per-call contribution "
                 "vectors observed through importance_values with alpha=1 in dynamic mode and a frozen storage (or the batch return "
@@ -670,7 +711,8 @@ def main(run):
         extra_draw.append((grnd.choice(["sage", "pfi", "batch"]), grnd.choice(["joint", "product"]), grnd.choice([2, 3, 4]),
                            grnd.choice([2, 3, 4, 6, 30, 300]), grnd.choice([1, 2, 3])))
     jobs = [("outcome", i, c) for i, c in enumerate(OUTCOME_CFGS + extra_out)] + [("draw", i, c) for i, c in enumerate(DRAW_CFGS + extra_draw)] \
-        + [("order", i, c) for i, c in enumerate(ORDER_CFGS)] + [("moving", i, c) for i, c in enumerate(MOVING_CFGS)]
+        + [("order", i, c) for i, c in enumerate(ORDER_CFGS)] + [("moving", i, c) for i, c in enumerate(MOVING_CFGS)] \
+        + [("sizes", 0, list(range(1, 36))), ("sizes", 1, list(range(36, 71)) + [127, 128, 129, 255, 256, 257, 1025])]
     # every shard must touch every anchor: shards run a slice of jobs, coverage is merged by the parent
     for j, (what, i, c) in enumerate(jobs):
         if j % nsh != sh:
@@ -682,5 +724,7 @@ def main(run):
             order_case(run, i, c, R_ORDER[run.tier], seed)
         elif what == "moving":
             moving_case(run, i, c, R_MOVING[run.tier], seed)
+        elif what == "sizes":
+            size_sweep_case(run, c, 3000 if run.tier == "quick" else 40000, seed)
         else:
             draw_case(run, i, c, R_DRAW[run.tier], seed)
